@@ -1,4 +1,5 @@
 import Proofs.LeftLoop
+import Proofs.TableBuild
 /-! `Subsume` (`lm/partial.hh:132-158`, `between_length = 0`): joining two finished fragments gives the canonical
 chart state of the concatenation, and the returned adjustment is exactly whole − parts. -/
 namespace KV.Left
@@ -361,5 +362,68 @@ theorem subsume_frag_aux (H : Hyp a T) (R : Ptr → Rat) {ws1 ws2 : List Word} {
             simp only [List.length_map, List.length_range] at hc
             omega
         · exact closed_of_cn H ws1 ws2 Lw (by omega) (by simpa [h] using hcn)
+
+end KV.Left
+
+namespace KV.Left
+open KV.Arpa KV.Table KV.State KV.Score
+
+variable {a : Arpa} {T : Table}
+
+/-- the extends-left marks are exact (true for every correctly built table; not for the probing sign-bit quirk) -/
+def XLSound (T : Table) : Prop := ∀ g, T.xl g = true → ∃ x, T.lookup (g ++ [x]) ≠ none
+
+/-- with exact extends-left marks the canonical description of a word sequence is unique: in particular every
+derivation of the same yield returns the same score (also with rest costs) -/
+theorem frag_unique (R : Ptr → Rat) (hx : XLSound T) {ws : List Word} {L L' : Nat} {c c' : Chart} {p p' : Rat}
+    (G : FragC a T R ws L c p) (G' : FragC a T R ws L' c' p') : L = L' ∧ p = p' := by
+  have key : ∀ {L L' : Nat} {c c' : Chart} {p p' : Rat}, FragC a T R ws L c p → FragC a T R ws L' c' p' → ¬ L < L' := by
+    intro L L' c c' p p' G G' hlt
+    have hL' := G'.L_le
+    by_cases hf : c.left.full = true
+    · rcases G.closed hf with ⟨h1, h2⟩ | ⟨h1, _⟩ | ⟨h1, _⟩
+      · obtain ⟨x, hx'⟩ := hx _ (G'.ptr_xl L hlt)
+        exact hx' (h2 x)
+      · omega
+      · omega
+    · have := (G.open_ (by simpa using hf)).1
+      omega
+  have hLL : L = L' := by
+    have h1 := key G G'
+    have h2 := key G' G
+    omega
+  subst hLL
+  exact ⟨rfl, by rw [G.prob_eq, G'.prob_eq]⟩
+
+theorem xlSound_build (a : Arpa) : XLSound (build a) := by
+  intro g hg
+  obtain ⟨t, ht, hxl⟩ := xl_lookup hg
+  have hxa : extendsLeft a g = true := by
+    cases g with
+    | nil => simp [build] at ht
+    | cons w ctx =>
+      simp only [build] at ht
+      cases hgr : a.gram (w :: ctx) with
+      | some e => simp [hgr] at ht; subst ht; exact hxl
+      | none =>
+        by_cases hx : extendsLeft a (w :: ctx) = true
+        · exact hx
+        · simp [hgr, hx] at ht
+  obtain ⟨p, hp, hl, s, hs⟩ := (extendsLeft_iff _ _).mp hxa
+  subst hs
+  cases s with
+  | nil => simp at hl
+  | cons x s' =>
+    refine ⟨x, ?_⟩
+    rw [build_lookup_ne_none]
+    refine ⟨by simp, ?_⟩
+    cases s' with
+    | nil => left; simpa using hp
+    | cons y s'' =>
+      right
+      rw [extendsLeft_iff]
+      exact ⟨g ++ x :: y :: s'', hp, by simp, by
+        have : g ++ x :: y :: s'' = (g ++ [x]) ++ (y :: s'') := by simp
+        rw [this]; exact List.prefix_append _ _⟩
 
 end KV.Left
